@@ -96,9 +96,14 @@ def rand_type(r):
     return r.pick(TYPE_FIRST) + "".join(r.pick(TYPE_REST) for _ in range(n))
 
 
+NEAR_KEYS = ["a_b", "aab", "a_", "aa", "a.b", "a-b", "a1b", "A_B", "AAB", "vcs_url", "vcsurl", "a_a", "aaa", "a_c", "aac", "z_", "zz", "Z_z"]
+
+
 def rand_key(r):
     if r.chance(1, 5):
         return r.pick(["checksum", "repository_url", "vcs_url", "type", "classifier"])
+    if r.chance(1, 4):
+        return r.pick(NEAR_KEYS)
     n = r.below(4)
     return r.pick(TYPE_FIRST) + "".join(r.pick(KEY_REST) for _ in range(n))
 
@@ -213,12 +218,17 @@ def spell_component(r, pos, s, ctx, enc_bias):
     return "".join(out)
 
 
-def spell(r, t, freedoms=None):
-    """one legal spelling of tuple t using the freedoms of C02; returns (string, used-freedoms)"""
+def default_freedoms(r):
+    return {"case": r.chance(1, 2), "slashes": r.chance(1, 2), "dots": r.chance(1, 2), "order": r.chance(1, 2),
+            "empties": r.chance(1, 3), "pct": r.pick([0, 0, 1, 2, 4, 8])}
+
+
+def spell_parts(r, t, fr=None, hook=None):
+    """one legal spelling of tuple t, as its pieces (see assemble).  `hook(kind, index, text, ctx)` may
+    replace the spelling of one component (fault injection for C05); kind is ns/name/version/qval/sub."""
     used = set()
-    fr = freedoms if freedoms is not None else {
-        "case": r.chance(1, 2), "slashes": r.chance(1, 2), "dots": r.chance(1, 2), "order": r.chance(1, 2),
-        "empties": r.chance(1, 3), "pct": r.pick([0, 0, 1, 2, 4, 8])}
+    fr = fr if fr is not None else default_freedoms(r)
+    hook = hook or (lambda kind, i, raw, ctx, spelled: spelled)
     has_ver = t.version is not None
     keys = set(k.lower() for k, _ in t.quals)
     empties = []
@@ -232,28 +242,29 @@ def spell(r, t, freedoms=None):
     has_q = len(t.quals) > 0 or len(empties) > 0
     has_sub = len(t.sub) > 0 or (fr["dots"] and r.chance(1, 4))
     ctx = (has_ver, has_q, has_sub)
-    o = "pkg:"
+    P = {"scheme": "pkg:", "lead": "", "type": t.ty, "ns": [], "ns_tail": "", "name": "", "version": None, "items": None, "sub": None}
     if fr["slashes"] and r.chance(1, 2):
-        o += "/" * (1 + r.below(2))
+        P["lead"] = "/" * (1 + r.below(2))
         used.add("lead-slash")
     ty = flipcase(r, t.ty) if fr["case"] else t.ty
     if ty != t.ty:
         used.add("type-case")
-    o += ty + "/"
-    for seg in t.ns:
+    P["type"] = ty
+    for i, seg in enumerate(t.ns):
+        pre = ""
         if fr["slashes"] and r.chance(1, 3):
-            o += "/"
+            pre = "/"
             used.add("ns-slash")
-        o += spell_component(r, "ns", seg, ctx, fr["pct"]) + "/"
+        P["ns"].append(pre + hook("ns", i, seg, ctx, spell_component(r, "ns", seg, ctx, fr["pct"])))
     if t.ns and fr["slashes"] and r.chance(1, 3):
-        o += "/"
+        P["ns_tail"] = "/"
         used.add("ns-slash")
-    o += spell_component(r, "name", t.name, ctx, fr["pct"])
+    P["name"] = hook("name", 0, t.name, ctx, spell_component(r, "name", t.name, ctx, fr["pct"]))
     if has_ver:
-        o += "@" + spell_component(r, "version", t.version, ctx, fr["pct"])
+        P["version"] = hook("version", 0, t.version, ctx, spell_component(r, "version", t.version, ctx, fr["pct"]))
     if has_q:
         items = []
-        for k, v in t.quals:
+        for i, (k, v) in enumerate(t.quals):
             kk = flipcase(r, k) if fr["case"] else k
             if kk != k:
                 used.add("key-case")
@@ -261,33 +272,51 @@ def spell(r, t, freedoms=None):
                 vv = checksum_spell(r, t.cks) if (fr["case"] or fr["order"]) else checksum_canon(t.cks)
                 if vv != checksum_canon(t.cks):
                     used.add("checksum-variant")
-                items.append(kk + "=" + spell_component(r, "qval", vv, ctx, fr["pct"]))
             else:
-                items.append(kk + "=" + spell_component(r, "qval", v, ctx, fr["pct"]))
+                vv = v
+            items.append(kk + "=" + hook("qval", i, vv, ctx, spell_component(r, "qval", vv, ctx, fr["pct"])))
         if fr["order"]:
             items = r.shuffle(items)
             used.add("qual-order")
         for k in empties:
             items.insert(r.below(len(items) + 1), (flipcase(r, k) if fr["case"] else k) + "=")
             used.add("empty-qual")
-        o += "?" + "&".join(items)
+        P["items"] = items
     if has_sub:
-        pieces = [spell_component(r, "sub", s, ctx, fr["pct"]) for s in t.sub]
-        # a spelled piece must not be raw "." / ".." / "" (those are skipped): tuples exclude them, and
-        # percent-encoded dots would be refused, so re-spell raw if the piece came out as an encoded dot segment
+        pieces = [hook("sub", i, s_, ctx, spell_component(r, "sub", s_, ctx, fr["pct"])) for i, s_ in enumerate(t.sub)]
         if fr["dots"]:
-            extra = 1 + r.below(2)
-            for _ in range(extra):
+            for _ in range(1 + r.below(2)):
                 pieces.insert(r.below(len(pieces) + 1), r.pick([".", "..", ""]))
                 used.add("dot-seg")
-        sp = "/".join(pieces)
+        pre = post = ""
         if fr["slashes"] and r.chance(1, 2):
-            sp = "/" * r.below(3) + sp + "/" * r.below(3)
+            pre, post = "/" * r.below(3), "/" * r.below(3)
             used.add("sub-slash")
-        o += "#" + sp
+        P["sub"] = (pre, pieces, post)
     if fr["pct"]:
         used.add("pct")
-    return o, sorted(used)
+    return P, sorted(used), ctx
+
+
+def assemble(P):
+    o = P["scheme"] + P["lead"] + P["type"] + "/"
+    for seg in P["ns"]:
+        o += seg + "/"
+    o += P["ns_tail"] + P["name"]
+    if P["version"] is not None:
+        o += "@" + P["version"]
+    if P["items"] is not None:
+        o += "?" + "&".join(P["items"])
+    if P["sub"] is not None:
+        pre, pieces, post = P["sub"]
+        o += "#" + pre + "/".join(pieces) + post
+    return o
+
+
+def spell(r, t, freedoms=None):
+    """one legal spelling of tuple t using the freedoms of C02; returns (string, used-freedoms)"""
+    P, used, _ = spell_parts(r, t, freedoms)
+    return assemble(P), used
 
 
 # ---------------------------------------------------------------- expectations (independent of the library)
